@@ -164,6 +164,13 @@ def main():
         for k in kernels:
             for npass in (1, 2):
                 cases.append((0, [f2[i] for i in k], npass))
+        # forms with two micro-ops (outside the statement's 0.15-cy family): never worse than uniform, never below the exact optimum
+        _forms, _ = forms_c01(ports)
+        doubles = [f for f in _forms if len(f) == 2]
+        for dbl in doubles:
+            for rest in [[]] + [[x] for x in f1]:
+                for npass in (1, 2):
+                    cases.append((0, [dbl] + rest, npass))
         # forms with alternative port assignments (the balancer explores them depth-first): alone, first and last in
         # kernels of length <= 3 - the bottleneck must not exceed the uniform one (first alternative, uniform split)
         _, alt = forms_c01(ports)
@@ -195,7 +202,7 @@ def main():
         nontrivial = any(len(u) > 1 or len(u[0][1]) > 1 for u in forms if not isinstance(u, dict)) or any(isinstance(u, dict) for u in forms)
         R.case((pi, repr(forms), npass), nontrivial=nontrivial, sample=dict(desc, totals=tot))
         for what, detail, known in fails:
-            if MODE == "c02" and any(isinstance(u, dict) for u in forms):
+            if MODE == "c02" and (any(isinstance(u, dict) for u in forms) or any(len(u) > 1 for u in forms)):
                 continue  # per-instruction feasibility of forms with alternatives is C01's subject (its check runs them)
             if known:
                 known_seen += 1
@@ -208,6 +215,14 @@ def main():
             # forms with alternatives are outside the statement's 0.15-cy family; only "never worse than uniform" is claimed
             if max(tot) > max(uni) + EPS:
                 R.fail("C02/optimal/worse-than-uniform", "c02:worse", f"bottleneck {max(tot)} after {npass} pass(es) > uniform {max(uni)} for kernel {forms}", desc)
+        elif MODE == "c02" and tot is not None and any(len(u) > 1 for u in forms):
+            opt = optimum(ports, sel)
+            if max(tot) > max(uni) + EPS:
+                R.fail("C02/optimal/worse-than-uniform", "c02:worse", f"bottleneck {max(tot)} after {npass} pass(es) > uniform {max(uni)} for kernel {forms}", desc)
+            if max(tot) < opt - 0.01 * sum(len(u) for u in forms) - 0.005 - EPS:
+                # the recorded C01 defect (second pass, overlapping but different port sets of one instruction) seen through C02
+                known_c01 = npass == 2 and any(overlapping_different(u) for u in forms if len(u) > 1)
+                R.fail("C02/optimal/undercuts-optimum", "optimal:second-pass:overlapping-uops" if known_c01 else "c02:undercut", f"bottleneck {max(tot)} < exact optimum {opt:.4f} for kernel {forms} (passes={npass})", desc)
         elif MODE == "c02" and tot is not None:
             opt = optimum(ports, sel)
             if max(tot) > max(uni) + EPS:
